@@ -1640,6 +1640,11 @@ def install(I):
 
     def _reversed(I_, a, k):
         from .interp import ConcIter
+        if isinstance(a[0], RangeObj):
+            r = a[0]
+            st = I_.unC(r.step)
+            if st == 1:
+                return RangeObj(py_binop(I_, "-", I_.unC(r.stop), 1, None), py_binop(I_, "-", I_.unC(r.start), 1, None), -1)
         return ConcIter(list(reversed(I_.iter_concrete(a[0]))))
     N("reversed", _reversed)
 
